@@ -133,19 +133,19 @@ func init() {
 		var e error
 		switch how {
 		case "text":
-			e = untext([]byte(arg[1:]))
+			e = untext(r.guard([]byte(arg[1:])))
 		case "bin":
 			b, err := unhx(arg)
 			if err != nil {
 				return "", err
 			}
-			e = unbin(b)
+			e = unbin(r.guard(b))
 		case "scan":
 			b, err := unhx(arg)
 			if err != nil {
 				return "", err
 			}
-			e = scan(b)
+			e = scan(r.guard(b))
 		case "scanstr":
 			e = scan(arg)
 		default:
